@@ -57,6 +57,7 @@ def shards(tier):
     out.append({"kind": "mixed-mac-pairs"})
     out.append({"kind": "phrase-terminators"})
     out.append({"kind": "sequences"})
+    out.append({"kind": "dict-order"})
     out.append({"kind": "large"})
     return out
 
@@ -117,7 +118,7 @@ B64_BYTES = {"plus": b"\xfb\xef\xbe", "slash": b"\xff\xff\xff", "both": b"\xfb\x
 
 
 def build(cipher, mac, kdf, rounds, salt_len, phrase, cfg, layout, data_cipher=None, salt_kind=None, key_kind=None,
-          wrong_mac=None):
+          wrong_mac=None, dict_order=None):
     data_cipher = data_cipher or cipher
     salt = B.det_bytes("salt", salt_len)
     dk = B.det_bytes("datakey" + cipher, B.KEYLEN[data_cipher])
@@ -126,7 +127,7 @@ def build(cipher, mac, kdf, rounds, salt_len, phrase, cfg, layout, data_cipher=N
             salt_kind, (B64_BYTES.get(salt_kind, b"") * 6)[:18])
     if key_kind:
         dk = (B64_BYTES[key_kind] * 11)[:B.KEYLEN[data_cipher]]
-    right, rblob = B.pair_text(phrase, kdf, cipher, rounds, salt, mac, data_cipher, dk, B.det_bytes("iv1", 16))
+    right, rblob = B.pair_text(phrase, kdf, cipher, rounds, salt, mac, data_cipher, dk, B.det_bytes("iv1", 16), order=dict_order)
     sameid = layout.endswith("-sameid")  # the pairs carry the same phrase id (ids are labels, not keys)
     layout = layout[:-7] if sameid else layout
     wrong, _ = B.pair_text(phrase + "#other", kdf, cipher, rounds, salt, wrong_mac or mac, data_cipher, B.det_bytes("otherkey", B.KEYLEN[data_cipher]),
@@ -150,6 +151,12 @@ def run_shard(shard, ctx):
             for c, m, kd, lay in itertools.product(CIPHERS, MACS, KDFS, ("wrong-right-sameid", "right-wrong-sameid", "three-sameid")):
                 run_case({"kind": "positive", "cipher": c, "mac": m, "kdf": kd, "rounds": 1, "salt": 16, "phrase": 1, "len": 21,
                           "layout": lay}, ctx)
+    elif kind == "dict-order":
+        # the four entries of the phrase dictionary in every order
+        for n, order in enumerate(itertools.permutations(range(4))):
+            for lay in ("one", "wrong-right"):
+                run_case({"kind": "positive", "cipher": CIPHERS[n % 3], "mac": MACS[n % len(MACS)], "kdf": KDFS[n % 2], "rounds": 2 + n % 3,
+                          "salt": 16, "phrase": 1, "len": 23, "layout": lay, "dict_order": list(order)}, ctx)
     elif kind == "sequences":
         for c, m, kd in itertools.product(CIPHERS, MACS, KDFS):
             for seq in itertools.product("RWT", repeat=3):
@@ -357,7 +364,8 @@ def run_case(case, ctx):
                 cfg = "\n".join(['%s = "decrypted-%d"' % (cs(n), i) for i, n in enumerate(case["override"])] + ['extra = "1"'])
             text, outer, rblob, dblob, salt, dk = build(case["cipher"], case["mac"], case["kdf"], case["rounds"], case["salt"],
                                                         phrase, cfg, case["layout"], case.get("data_cipher"),
-                                                        case.get("salt_kind"), case.get("key_kind"), case.get("wrong_mac"))
+                                                        case.get("salt_kind"), case.get("key_kind"), case.get("wrong_mac"),
+                                                        case.get("dict_order"))
             if case["layout"] != "one" or case["len"] == 0 or case["len"] >= 16:
                 ctx.nontrivial += 1
             v = VMX.parse(text)
